@@ -22,3 +22,13 @@ package header
 //@   require Tail public
 //@   require Subscribe public
 //@ end
+
+// C20: the header feed behind blob subscriptions. Every header taken from the underlying subscription is
+// handed to the reader before the next one is taken - the feed never skips a header while its reader is
+// busy (it blocks instead) - and it ends only when the subscriber's context is done or the underlying
+// subscription fails. $Sel1: the send case of the select was taken.
+//@ func (*Service).Subscribe$1
+//@   property C20
+//@   noframe
+//@   loop 1: backedge $Sel1
+//@   checks ctxDone(ctx) || err != nil
